@@ -45,9 +45,11 @@ type caseSpec struct {
 	Signing  bool `json:"signing_key_configured"`
 	Sleeping bool `json:"initially_sleeping"`
 	// the agent is asleep and inside a poll window (its own doPoll is running) when the frames arrive
-	InPoll bool        `json:"in_poll_window,omitempty"`
-	Frames []frameSpec `json:"frames"`
-	Why    string      `json:"why,omitempty"`
+	InPoll bool `json:"in_poll_window,omitempty"`
+	// sleep.enabled=false in the agent configuration (a transit agent): no sleep manager, the flooder still handles and forwards commands
+	SleepDisabled bool        `json:"sleep_disabled,omitempty"`
+	Frames        []frameSpec `json:"frames"`
+	Why           string      `json:"why,omitempty"`
 	// concurrent phase (not a frame sequence), replayed by name
 	Scenario string `json:"scenario,omitempty"`
 	Attempts int    `json:"attempts_per_forger,omitempty"`
@@ -107,7 +109,7 @@ func runCase(c *vh.Ctx, t *testing.T, keys *scx.Keys, dataDir string, cs *caseSp
 			cfg.ICMP.Enabled = false
 			cfg.SOCKS5.Enabled = false
 			cfg.HTTP.Enabled = false
-			cfg.Sleep.Enabled = true
+			cfg.Sleep.Enabled = !cs.SleepDisabled
 			cfg.Sleep.PersistState = false
 			cfg.Sleep.PollInterval = 6 * time.Hour
 			cfg.Sleep.PollIntervalJitter = 0
@@ -130,20 +132,25 @@ func runCase(c *vh.Ctx, t *testing.T, keys *scx.Keys, dataDir string, cs *caseSp
 			}
 			a.VerifFlooder().VerifSetSender(rec)
 			var sleepCb, wakeCb int
-			mgr := a.VerifInitSleepManager(sleep.Callbacks{
-				OnSleep: func() error { sleepCb++; return nil },
-				OnWake:  func() error { wakeCb++; return nil },
-				OnPoll: func() error {
-					if cs.InPoll {
-						return a.VerifDoPoll() // the agent's own poll cycle (sets up the wake signal, waits for the window to end)
-					}
-					return nil
-				},
-			})
-			defer func() {
-				mgr.Stop()
-				a.Stop()
-			}()
+			var mgr *sleep.Manager
+			if cs.SleepDisabled {
+				defer a.Stop()
+			} else {
+				mgr = a.VerifInitSleepManager(sleep.Callbacks{
+					OnSleep: func() error { sleepCb++; return nil },
+					OnWake:  func() error { wakeCb++; return nil },
+					OnPoll: func() error {
+						if cs.InPoll {
+							return a.VerifDoPoll() // the agent's own poll cycle (sets up the wake signal, waits for the window to end)
+						}
+						return nil
+					},
+				})
+				defer func() {
+					mgr.Stop()
+					a.Stop()
+				}()
+			}
 			if cs.Sleeping || cs.InPoll {
 				if err := mgr.Sleep(); err != nil {
 					panic(err)
@@ -187,7 +194,7 @@ func runCase(c *vh.Ctx, t *testing.T, keys *scx.Keys, dataDir string, cs *caseSp
 				} else {
 					a.VerifProcessFrame(scx.ID(fs.From), fr)
 				}
-				o := stepObs{NowNs: now.UnixNano(), State: int(mgr.GetState()), SleepCb: sleepCb, WakeCb: wakeCb}
+				o := stepObs{NowNs: now.UnixNano(), State: int(a.GetSleepState()), SleepCb: sleepCb, WakeCb: wakeCb}
 				for _, s := range rec.take() {
 					switch s.Frame.Type {
 					case protocol.FrameSleepCommand:
@@ -355,6 +362,8 @@ func forgeStress(keys *scx.Keys, attempts int) (forgedAccepted, forgedTotal int6
 
 func initCode(cs *caseSpec) uint64 {
 	switch {
+	case cs.SleepDisabled:
+		return 3
 	case cs.InPoll:
 		return 2
 	case cs.Sleeping:
@@ -455,7 +464,7 @@ func TestVerif(t *testing.T) {
 			c.Fail("panic", p, cs)
 			return
 		}
-		key := fmt.Sprintf("%v/%v/%v", cs.Signing, cs.Sleeping, cs.InPoll)
+		key := fmt.Sprintf("%v/%v/%v/%v", cs.Signing, cs.Sleeping, cs.InPoll, cs.SleepDisabled)
 		for _, f := range cs.Frames {
 			c.Count("frame:" + f.Type)
 			if f.Cmd == nil {
@@ -557,6 +566,14 @@ func TestVerif(t *testing.T) {
 			{Type: "sleep", From: 1, AdvanceMs: 150000, Cmd: &scx.CmdSpec{Kind: "sleep", Origin: 11, ID: 2, Sig: "valid"}},
 			{Type: "peer-up", From: 2, AdvanceMs: 660000}, {Type: "sleep", From: 3, AdvanceMs: 100, Cmd: &scx.CmdSpec{Kind: "sleep", Origin: 11, ID: 2, Sig: "valid", TsDelta: -810}}}})
 
+		// 8. a transit agent: signing key configured, sleep mode disabled - it must still refuse to forward what does not verify
+		for _, sig := range []string{"zero", "wrongkey", "valid"} {
+			do(&caseSpec{Signing: true, SleepDisabled: true, Why: "sleep-disabled-transit", Frames: []frameSpec{
+				{Type: "sleep", From: 1, Cmd: &scx.CmdSpec{Kind: "sleep", Origin: 10, ID: 1, Sig: sig}},
+				{Type: "wake", From: 2, AdvanceMs: 250, Cmd: &scx.CmdSpec{Kind: "wake", Origin: 10, ID: 2, Sig: sig, TsDelta: -301}},
+				{Type: "queued-wake", From: 3, AdvanceMs: 1, Cmd: &scx.CmdSpec{Kind: "wake", Origin: 11, ID: 3, Sig: sig}},
+				{Type: "peer-up", From: 4, AdvanceMs: 1000}}})
+		}
 		// 7. frames that arrive while the agent sits in a poll window (asleep, reconnected, its doPoll waiting)
 		for _, sig := range []string{"zero", "wrongkey", "bitflip", "valid"} {
 			do(&caseSpec{Signing: true, InPoll: true, Why: "poll-window", Frames: []frameSpec{
@@ -571,6 +588,8 @@ func TestVerif(t *testing.T) {
 			cs := &caseSpec{Signing: !r.Chance(1, 6), Sleeping: r.Chance(1, 2)}
 			if r.Chance(1, 6) {
 				cs.InPoll, cs.Sleeping = true, false
+			} else if r.Chance(1, 6) {
+				cs.SleepDisabled, cs.Sleeping = true, false
 			}
 			nf := 1 + r.Intn(4)
 			for j := 0; j < nf; j++ {
